@@ -48,22 +48,28 @@ func (fc *fileCache) Add(key Key, content io.Reader) (err error) {
 	if err != nil {
 		return
 	}
+	crashPoint("after_create")
 	defer func() {
 		file.Close()
 		if err != nil {
 			_ = os.Remove(file.Name())
 		}
 	}()
+	content = crashReader(content)
 	if _, err = io.Copy(file, content); err != nil {
 		return
 	}
+	crashPoint("after_copy")
 	if err = file.Sync(); err != nil {
 		return
 	}
+	crashPoint("after_sync")
 	if err = file.Close(); err != nil {
 		return
 	}
+	crashPoint("after_close")
 	err = os.Rename(file.Name(), path)
+	crashPoint("after_rename")
 	return
 }
 
